@@ -197,26 +197,55 @@ class CdefGen:
         self.consts.append(name)
 
 
-def gen_module(rng, uid, trigger=None):
+def gen_module(rng, uid, trigger=None, include_shape=None):
     g = CdefGen(rng, uid)
     names = dict(types=g.types, consts=g.consts, funcs=[], vars=[])
     opts = {}
     base = pre = None
-    if rng.random() < 0.12 and trigger is None:
-        # an included base ffi declaring a struct and a typedef
-        b = CdefGen(rng, uid * 1000 + 999)
-        b.add_struct()
-        b.add_typedef()
-        base = "\n".join(b.lines)
-        if rng.random() < 0.4:
+    bases = None
+    if (rng.random() < 0.16 and trigger is None) or include_shape:
+        # included ffis: one base, 2-3 sibling bases, or a diamond (B1 and B2 both include B0; main includes B1, B2);
+        # each declares a struct/union and a typedef, and the including ffi uses the types of every one of them
+        shape = include_shape or rng.choice(["single", "single", "siblings2", "siblings2", "siblings3", "diamond", "chain"])
+        nb = dict(single=1, siblings2=2, siblings3=3, diamond=3, chain=2)[shape]
+        gens, bases = [], []
+        for k in range(nb):
+            b = CdefGen(rng, uid * 1000 + 990 + k)
+            inc = []
+            if (shape == "diamond" and k > 0) or (shape == "chain" and k == 1):
+                inc = [0]
+                b.complete += [x for x in gens[0].complete if x not in PRIMS]
+                b.anyspec += [x for x in gens[0].anyspec if x != "void"]
+            b.add_struct()
+            b.add_typedef()
+            if rng.random() < 0.4:
+                b.add_enum()
+            gens.append(b)
+            bases.append(dict(cdef="\n".join(b.lines), inc=inc))
+        main_inc = {"single": [0], "siblings2": [0, 1], "siblings3": [0, 1, 2], "diamond": [1, 2], "chain": [1]}[shape]
+        if rng.random() < 0.5:
+            main_inc = main_inc[::-1]
+        if rng.random() < 0.4 or include_shape == "single":
             # declarations made BEFORE ffi.include(): own anonymous members numbered before the included ones are known
-            pg = CdefGen(rng, uid * 1000 + 998)
+            pg = CdefGen(rng, uid * 1000 + 989)
             pg.add_struct()
             pre = "\n".join(pg.lines)
             g.types += pg.types
-        g.complete += [s for s in b.complete if s not in PRIMS]
-        g.anyspec += [s for s in b.anyspec if s != "void"]
-        g.types += b.types
+        use = []
+        for k, b in enumerate(gens):
+            g.complete += [x for x in b.complete if x not in PRIMS]
+            g.anyspec += [x for x in b.anyspec if x != "void"]
+            g.types += b.types
+            g.consts += b.consts
+            first = [x for x in b.complete if x not in PRIMS][:1]
+            if first:
+                use.append("%s u%d;" % (first[0], k) if rng.random() < 0.6 else "%s *u%d;" % (first[0], k))
+        if use:     # one struct of the including ffi that uses a type of every included ffi
+            un = g.fresh("s")
+            g.lines.append("struct %s { %s };" % (un, " ".join(use)))
+            g.types.append("struct %s" % un)
+            g.complete.append("struct %s" % un)
+        bases = dict(list=bases, main=main_inc, shape=shape)
     for _ in range(rng.choice([2, 3, 4, 6, 8, 10])):
         k = rng.random()
         if k < 0.35:
@@ -257,7 +286,8 @@ def gen_module(rng, uid, trigger=None):
         n = "%sBIG" % g.p.upper()
         g.lines.append("#define %s %d" % (n, rng.choice([I64, I64 + 1, -I63 - 1, -I64, 3 * I64 + 7, -I64 - 9])))
         g.consts.append(n)
-    return dict(kind="module", cdef="\n".join(g.lines), base=base, pre=pre, names=names, opts=opts, trigger=trigger)
+    return dict(kind="module", cdef="\n".join(g.lines), base=base, bases=bases, pre=pre, names=names, opts=opts,
+                trigger=trigger)
 
 
 def gen_codec(rng, n):
@@ -290,6 +320,18 @@ def generate(ctx):
         cases.append(gen_module(rng, u))
     for i, trig in enumerate(["FILE", "pack", "biglen", "bigconst"] * ctx.n(1, 4)):
         cases.append(gen_module(rng, 100000 + i, trigger=trig))
+    # every include shape at least once per run (single = with declarations before include(): the fixed findings
+    # include-anon-struct-name-clash / include-after-cdef-anon-struct-name-clash stay exercised)
+    for i, shp in enumerate(["single", "siblings2", "siblings3", "diamond", "chain"] * ctx.n(1, 3)):
+        cases.append(gen_module(rng, 200000 + i, include_shape=shp))
+    # the two fixed include witnesses, verbatim
+    cases.append(dict(kind="module", base="struct B { struct { long double a; }; int c; };", bases=None, pre=None,
+                      cdef="struct A { struct { char x; }; struct B q; };",
+                      names=dict(types=["struct A", "struct B"], consts=[], funcs=[], vars=[]), opts={}, trigger=None))
+    cases.append(dict(kind="module", base="struct B { struct { long double a; }; int c; };", bases=None,
+                      pre="struct A { struct { char x; }; int y; };", cdef="struct A2 { struct B q; };",
+                      names=dict(types=["struct A", "struct A2", "struct B"], consts=[], funcs=[], vars=[]), opts={},
+                      trigger=None))
     return cases
 
 
@@ -330,6 +372,13 @@ def run_harness(exe, hexes):
     return [tuple(int(x) for x in line.split()) for line in p.stdout.splitlines()]
 
 
+def base_text(case):
+    t = case.get("base") or ""
+    if case.get("bases"):
+        t += "\n" + "\n".join(b["cdef"] for b in case["bases"]["list"])
+    return t
+
+
 def finding_key(case, kind, info):
     """narrow matcher of the four known differences; anything else -> None"""
     import re
@@ -350,7 +399,7 @@ def finding_key(case, kind, info):
         if d["cat"] == "type" and "c1" in d:
             # `typedef struct TAG [{...}] NAME;`: the in-line ctype is called NAME, the out-of-line one `struct TAG`
             ren = {}
-            for m in re.finditer(r"typedef (struct|union) (\w+) (?:\{.*?\} )?(\w+)(?:, \*\w+)?;", case["cdef"] + "\n" + (case.get("base") or "") + "\n" + (case.get("pre") or "")):
+            for m in re.finditer(r"typedef (struct|union) (\w+) (?:\{.*?\} )?(\w+)(?:, \*\w+)?;", case["cdef"] + "\n" + base_text(case) + "\n" + (case.get("pre") or "")):
                 ren[m.group(3)] = "%s %s" % (m.group(1), m.group(2))
 
             def norm(x):
@@ -364,9 +413,9 @@ def finding_key(case, kind, info):
             if ren and norm(d["c1"]) == d["c2"] and d["c1"] != d["c2"]:
                 return "typedef-tagged-struct-name"
             anon = re.compile(r"(?<!typedef )\b(?:struct|union) \{")
-            if case.get("base") and anon.search(case["base"]) and case.get("pre") and anon.search(case["pre"]):
+            if base_text(case) and anon.search(base_text(case)) and case.get("pre") and anon.search(case["pre"]):
                 return "include-after-cdef-anon-struct-name-clash"
-            if case.get("base") and anon.search(case["base"]) and anon.search(case["cdef"]):
+            if base_text(case) and anon.search(base_text(case)) and anon.search(case["cdef"]):
                 return "include-anon-struct-name-clash"
         if d["cat"] == "const":
             try:
@@ -507,6 +556,8 @@ def eval_module(ctx, c, r, batch):
         ctx.violation(c, "generated module does not import: " + st["import_error"])
         return
     ctx.hist("module", "compared")
+    ctx.hist("includes", (c.get("bases") or {}).get("shape", "single-legacy" if c.get("base") else "none")
+             + ("+cdef-before-include" if c.get("pre") else ""))
     ctx.hist("decls", c["cdef"].count(";") // 4 * 4)
     ctx.nontrivial(("module", c["cdef"]))
     # ---- the property predicate on the implementation: every difference found by the worker
@@ -592,7 +643,7 @@ def run(ctx):
                        "cffi_opcode.py, the real cdl_4bytes/cdl_opcode (text cut out of cdlopen.c) and _CFFI_GETOP/_CFFI_GETARG, "
                        "and the Coq model. module: random cdefs (typedef chains over pointers/arrays/function pointers, named, "
                        "anonymous and typedef'd structs/unions with nested anonymous members, bitfields, flexible arrays, opaque "
-                       "structs, enums, #define constants up to 64 bits, packed=True, an included base ffi, functions/globals/"
+                       "structs, enums, #define constants up to 64 bits, packed=True, included ffis (one, 2-3 siblings, chain, diamond; cdef before or after include()), functions/globals/"
                        "constants of a compiled test library) built in-line and through emit_python_code + import; compared: "
                        "every declared type (identity for aggregate-free types, kind/name/size/alignment/fields recursively "
                        "otherwise), list_types(), constants, dlopen addresses/types/values, dir(lib); plus one case per known "
